@@ -158,6 +158,30 @@ PROPS.update({
     },
 })
 
+PROPS.update({
+    "C01": {
+        "tests": "^TestC01_",
+        "quick": {"scale": 5.0, "timeout": 900},
+        "thorough": {"scale": 40.0, "shards": 16, "timeout": 1800},
+        "rule": "rapid stateful histories of 1-12 anchored operations (ending at the first accepted deactivate) under a drawn protocol "
+                "(multihash list [18],[19],[18,19],[19,18]; time delta 0/1/2/5/600; delta limit 1200/3000/20000; nonce size 8/16/32): "
+                "each step draws type, anchoring metadata (small and huge times/numbers, canonical and equivalent references, anchor "
+                "origin string/object/list/absent), signing key of any of the five types with optional nonce, anchoring window around the "
+                "anchoring time, and a class: valid, signed by an uncommitted key, inapplicable patches, 7 delta problems, or one of ~25 "
+                "labelled refusals (not JSON, missing members, reveal/alg/header/signature/nonce/key/JWS problems, malformed commitments, "
+                "next recovery = current key, suffix mismatch, create typed as other). Requests are assembled by the harness from first "
+                "principles. Oracle: refApply (Sidetree state machine) after every step, all 15 ResolutionModel fields compared, refused "
+                "=> (nil, error) and the previous state stays in force. Non-trivial: >= 3 recorded steps with at least one accepted, one "
+                "degraded and one refused operation, or an accepted recover/deactivate after a degraded step; distinct by (step list, multihash list).",
+        "technique": "model-based stateful property testing (rapid) against an executable Sidetree state machine",
+        "level_text": "Randomised exploration of operation histories against a reference state machine; every failure class of the catalogue can occur at every position.",
+        "level_note": "Trusts the harness reference state machine (refApply, about 120 lines) and reference composer; requests are built without the library's builders.",
+        "assumptions": ["matching reveal values to stored commitments is the operation processor's job (stated in the property): the applier accepts an operation signed by any key whose reveal value it carries",
+                        "'empty state' means no document: after a degraded create the document is present but empty, so a second create is refused",
+                        "anchoring times and window bounds are below 2^50 (JSON numbers stay exact)"],
+    },
+})
+
 NOT_APPLICABLE = {p: "check not built yet (work in progress; this entry is temporary)" for p in
                   ["C%02d" % i for i in range(1, 21)]}
 HOOK_COMMITS = []
